@@ -2603,4 +2603,57 @@ theorem wreach_wrun {cfg : WCfg} {s0 s : WState} (h : WReach cfg s0 s) (sched : 
 
 end Workers
 
+
+/-! ## class construction: rebinding has the frame property -/
+namespace ClassTables
+
+/-- what a run of rebinding updates keeps, relative to the store `s0` it started from -/
+structure Frame (s0 s : Store) (y : Nat) : Prop where
+  next_le : s0.next ≤ s.next
+  wf : WF s
+  others : ∀ x, x ≠ y → ∀ a, s.bind x a = s0.bind x a
+  old : ∀ o, o < s0.next → s.heap o = s0.heap o
+
+theorem Frame.step {s0 s : Store} {y : Nat} (h : Frame s0 s y) (u : Upd) (hu : u.isRebind = true) :
+    Frame s0 (applyUpd y s u) y := by
+  cases u with
+  | mutate a extra => simp [Upd.isRebind] at hu
+  | rebind a extra =>
+    refine ⟨?_, ?_, ?_, ?_⟩
+    · simp only [applyUpd]; have := h.next_le; omega
+    · intro c a'
+      simp only [applyUpd]
+      split
+      · omega
+      · have := h.wf c a'; omega
+    · intro x hx a'
+      simp only [applyUpd]
+      have : ¬ (x = y ∧ a' = a) := fun e => hx e.1
+      simp only [this, if_false]
+      exact h.others x hx a'
+    · intro o ho
+      simp only [applyUpd]
+      have : ¬ o = s.next := by have := h.next_le; omega
+      simp only [this, if_false]
+      exact h.old o ho
+
+theorem Frame.foldl {s0 : Store} {y : Nat} : ∀ (us : List Upd) (s : Store), Frame s0 s y →
+    (∀ u ∈ us, u.isRebind = true) → Frame s0 (us.foldl (applyUpd y) s) y
+  | [], _, h, _ => h
+  | u :: us, s, h, hall => by
+    simp only [List.foldl_cons]
+    exact Frame.foldl us _ (h.step u (hall u List.mem_cons_self)) (fun v hv => hall v (List.mem_cons_of_mem _ hv))
+
+theorem Frame.inherit {s : Store} (hw : WF s) (y b : Nat) : Frame s (inherit s y b) y := by
+  refine ⟨Nat.le_refl _, ?_, ?_, fun _ _ => rfl⟩
+  · intro c a
+    simp only [ClassTables.inherit]
+    split
+    · exact hw b a
+    · exact hw c a
+  · intro x hx a
+    simp [ClassTables.inherit, hx]
+
+end ClassTables
+
 end SqlglotModel.Threads
